@@ -189,7 +189,8 @@ class Bench:
                 return r
             if not self.closed[s]:
                 self.accepted[s] += n
-                self.maxunread[s] = max(self.maxunread[s], self.accepted[s] - self.recvd[s])
+                if not self.closed["B" if s == "A" else "A"]:
+                    self.maxunread[s] = max(self.maxunread[s], self.accepted[s] - self.recvd[s])
             else:
                 self.cut[s] = True
             self.emit(ev="send", s=s, t=t, res="ok")
